@@ -95,7 +95,9 @@ class BaseLinker(SolverMixin, ModelInterface):
             for id_ in identifiers:
                 # Check spans are identical
                 comparator = self.__dict__['submodels'][id_]
-                if comparator.span != base.span:
+                if len(comparator.span) != len(base.span) or any(
+                    x != y for x, y in zip(comparator.span, base.span)
+                ):
                     raise InitialisationError(
                         f'''\
 Spans of submodels differ:
